@@ -68,7 +68,7 @@ func (g *Gen) addAxioms() {
 	for _, ax := range g.W.axioms {
 		env := g.specEnv(&State{reach: "true", locals: nil, heap: map[string]string{}, ghosts: map[string]Val{}, alloc: "0"}, nil)
 		env.calleePkg = g.W.lemmaPkg
-		g.assumes = append(g.assumes, env.evalBool(ax.E))
+		g.axioms = append(g.axioms, env.evalBool(ax.E))
 	}
 }
 
@@ -345,7 +345,13 @@ func runCheck(cmd, prop, tier string, seed int, only, dump string, verbose bool)
 	// generation errors
 	var genErrs []string
 	for _, g := range gens {
+		seen := map[string]bool{}
 		for _, e := range g.errs {
+			e = truncate(e, 400)
+			if seen[e] {
+				continue
+			}
+			seen[e] = true
 			genErrs = append(genErrs, g.key+": "+e)
 		}
 	}
